@@ -147,3 +147,8 @@ func (sk *SecretKey) VerifSignInternalWithMu(mu [64]byte, rnd [32]byte) []byte {
 	return sk.signInternalWithMu(mu, rnd)
 }
 func (pk *PublicKey) VerifVerifyInternal(mp, sigma []byte) error { return pk.verifyInternal(mp, sigma) }
+
+// VerifExpandMask is Algorithm 34 with counter mu (κ).
+func (par *params) VerifExpandMask(rho [64]byte, mu int) [][]uint32 {
+	return verifVecCoeffs(par.expandMask(rho, mu))
+}
